@@ -66,9 +66,35 @@ func theMh() multihash.Multihash {
 	return mh
 }
 
+// hexLikeMh is an identity multihash whose base58 form consists of hex digits only and has even length: read as hex it is
+// something else (and no multihash).
+var hexLikeMh = func() multihash.Multihash {
+	for a := 0; a < 1<<24; a++ {
+		mh, _ := multihash.Sum([]byte{byte(a >> 16), byte(a >> 8), byte(a)}, multihash.IDENTITY, -1)
+		s := mh.B58String()
+		if len(s)%2 != 0 {
+			continue
+		}
+		if _, err := hex.DecodeString(s); err == nil {
+			return mh
+		}
+	}
+	panic("no hex-like base58 multihash found")
+}()
+
+// mhFor is the multihash a request of path kind pk asks for.
+func mhFor(pk string) multihash.Multihash {
+	if pk == "mh-b58-hexlike" {
+		return hexLikeMh
+	}
+	return theMh()
+}
+
 func pathFor(pk string) string {
 	mh := theMh()
 	switch pk {
+	case "mh-b58-hexlike":
+		return "/multihash/" + hexLikeMh.B58String()
 	case "mh-b58":
 		return "/multihash/" + mh.B58String()
 	case "mh-hex":
@@ -307,7 +333,7 @@ func Run(args []string) *rep.Report {
 				bad("content-type", tc, ct)
 			}
 			fr, err := model.UnmarshalFindResponse(body)
-			if err != nil || len(fr.MultihashResults) != 1 || !bytes.Equal(fr.MultihashResults[0].Multihash, theMh()) || len(fr.MultihashResults[0].ProviderResults) != len(curResults) {
+			if err != nil || len(fr.MultihashResults) != 1 || !bytes.Equal(fr.MultihashResults[0].Multihash, mhFor(tc.Pk)) || len(fr.MultihashResults[0].ProviderResults) != len(curResults) {
 				bad("json-body", tc, fmt.Sprintf("%v %.300q", err, body))
 				return nil
 			}
@@ -353,6 +379,9 @@ func Run(args []string) *rep.Report {
 					r.Diverge(rep.Divergence{Key: "client-error", Detail: fmt.Sprintf("%d results: %v", n, err)})
 				case n == 0 && len(fr.MultihashResults) != 0:
 					r.Diverge(rep.Divergence{Key: "client-empty", Detail: "empty result set not returned as an empty response"})
+				case n == 0:
+					// the empty response is the caller's: what the caller puts into it does not show in the next one
+					fr.MultihashResults = append(fr.MultihashResults, model.MultihashResult{Multihash: theMh(), ProviderResults: results(2, v)})
 				case n > 0 && (len(fr.MultihashResults) != 1 || len(fr.MultihashResults[0].ProviderResults) != n || !bytes.Equal(fr.MultihashResults[0].Multihash, theMh())):
 					r.Diverge(rep.Divergence{Key: "client-results", Detail: fmt.Sprintf("%d results written, client got %+v", n, fr)})
 				case n > 0:
